@@ -23,6 +23,9 @@ type Spec struct {
 	Tasks    [][]Op          `json:"tasks"`
 	Switches []engine.Switch `json:"switches"`
 	Expect   *Expect         `json:"expect,omitempty"`
+	// GlobalExts registers the harness extensions at package level (one set
+	// of function objects shared by all Exprs) instead of on every Expr.
+	GlobalExts bool `json:"global_exts,omitempty"`
 }
 
 // StratSpec names the scheduling strategy of a generated run.
@@ -41,6 +44,10 @@ type DocSpec struct {
 	// Alias, if set, makes member Alias[0] of the decoded document refer to
 	// the same Go object as member Alias[1] (shared sub-structure).
 	Alias []string `json:"alias,omitempty"`
+	// Member/Parent: the document is member Member of the decoded JSON and,
+	// at run time, the very same Go object as that member of document Parent.
+	Member string `json:"member,omitempty"`
+	Parent string `json:"parent,omitempty"`
 }
 
 // ExprSpec is an expression compiled by the controller before the tasks
